@@ -55,7 +55,7 @@ def oracle(req, impl, build):
         d = O.kv(req)
         f = O.parse_ok(impl)
         if f is None:
-            return "partial_shuffle panicked on a slice of %s elements" % d["n"] if impl == "panic" else None
+            return None          # a panic is judged by panic_with_words_left: the scripted words may simply have run out (a sampler that rejects more)
         pos = O.ints(f[0])
         n = int(d["n"])
         if any(p >= n for p in pos):
@@ -66,6 +66,12 @@ def oracle(req, impl, build):
     return O.perm_oracle(req, impl)
 
 
+def panic_with_words_left(req, left, build):
+    if req.startswith("bigshuf"):
+        return "partial_shuffle panicked on a slice of %s elements with %d scripted words still unread (not the word source running dry)" % (O.kv(req)["n"], left)
+    return None
+
+
 def extra(binary, build, tier, rng):
     if build != "dev" and tier == "quick":
         return          # the exhaustive / statistical searches run once per quick check (dev profile); the release profile gets the request stream
@@ -74,6 +80,16 @@ def extra(binary, build, tier, rng):
     if tier == "thorough":
         specs += [("shuf", 5, 0, 60, 4), ("pshuf", 5, 3, 60, 3), ("pshuf", 5, 9, 60, 4)]
     yield from run_enum(binary, specs, "enumerated-draw-tuples")
+    # exact preimage counts of the first draw (which element goes to the front), by interval search over all 2^64 words
+    from .preimage_oracle import first_draw_counts
+    def front(res):
+        f = O.parse_ok(res)
+        return None if f is None else int(f[0].split(",")[0])
+    ps = []
+    for n in ((3, 5, 6, 7) if tier == "quick" else (2, 3, 5, 6, 7, 9, 11, 15, 17, 51, 60)):
+        items = ",".join(map(str, range(n)))
+        ps.append(("partial_shuffle(%d elements, 1): element at the front" % n, n, 64, (lambda w, items=items: "pshuf items=%s m=1 words=%d" % (items, w)), front, (lambda w1, w2, items=items: "pshuf items=%s m=1 words=%d,%d" % (items, w1, w2))))
+    yield from first_draw_counts(binary, build, rng, ps, "preimage-interval-probes")
     # frequency test under real generators (model-free; alarm only beyond a 1e-12 chi-square bound)
     from .stat_oracle import run_stat, samples_for
     specs = []
